@@ -134,6 +134,11 @@ def _pointer_escapes(ctx, p, funcs):
                 inner = n
             if inner is None:
                 continue
+            # a pointer that only serves to compute an index (`std::max_element(a + i, a + n) - a`): the difference is an
+            # integer, no pointer survives the expression; the subscript made with that index is an ordinary site
+            if any(a['k'] == 'BinaryOperator' and a.get('op') == '-' and (a.get('t') or '') in ('long', 'std::ptrdiff_t', 'ptrdiff_t', 'int')
+                   for a in f.ancestors(n)):
+                continue
             n_sites += 1
             names = [short(x['ref']['n']) for x in walk(inner) if x.get('ref', {}).get('k') in ('Field', 'Global', 'StaticMember', 'Local', 'Parm')]
             if not any(nm in POINTER_BASES for nm in names):
